@@ -970,28 +970,33 @@ pub fn conversion(prices: &[Price], from: &str, to: &str, date: Date) -> RateAns
             Some(d) => d,
         };
         let at: Vec<&&&Price> = usable.iter().filter(|p| p.date == best).collect();
-        // several prices for one pair on one date: the statement does not say which wins,
-        // unless they all state the same rate.
-        let first = at[0];
-        let (fnum, fden) = if first.of == *a {
-            (first.num, first.den)
-        } else {
-            (first.den, first.num)
-        };
-        for p in &at[1..] {
+        // several prices for one pair on one date: the statement does not say which wins, so
+        // each distinct rate becomes a parallel edge of equal rank (the answer must use one of
+        // them; with more than 3 distinct rates the query stays DONT_CARE to bound the search).
+        let mut rates: Vec<(Dec, Dec)> = Vec::new();
+        for p in &at {
             let (n, d) = if p.of == *a { (p.num, p.den) } else { (p.den, p.num) };
-            if n * fden != fnum * d {
-                return RateAnswer::DontCare("two different prices for one pair on one date");
+            let known = rates.iter().any(|(fnum, fden)| match (n.checked_mul(*fden), fnum.checked_mul(d)) {
+                (Some(x), Some(y)) => x == y,
+                _ => false,
+            });
+            if !known {
+                rates.push((n, d));
             }
         }
-        edges.push(Edge {
-            a: a.clone(),
-            b: b.clone(),
-            num: fnum,
-            den: fden,
-            source,
-            stale: (date.naive() - best.naive()).num_days(),
-        });
+        if rates.len() > 3 {
+            return RateAnswer::DontCare("more than three different prices for one pair on one date");
+        }
+        for (num, den) in rates {
+            edges.push(Edge {
+                a: a.clone(),
+                b: b.clone(),
+                num,
+                den,
+                source,
+                stale: (date.naive() - best.naive()).num_days(),
+            });
+        }
     }
     // enumerate simple paths from `from` to `to`
     let mut chains: Vec<Chain> = Vec::new();
